@@ -5,8 +5,10 @@
    (thread names, modules, unloaded modules: empty default; exception, misc info, Breakpad info, Linux status: None).
    Definitions only; proofs are in C14/BytesProofs.v.
 
-   Not populated from the bytes: the memory regions ([d_mems] = [], [t_stack] = None) - the stack-memory choice is
-   stated over the abstract record only (c14_stack_memory_choice); everything else of the dump record is. *)
+   Memory: [d_mems] = the regions get_memory() serves (Memory64List when it reads, else MemoryList), as (base, size).  A thread's
+   OWN stack descriptor is not carried ([t_stack] = None: the abstract record names an own stack by its index in the memory list,
+   a byte-level own stack is a region of its own), so the stack-memory choice from the bytes is stated for threads whose stack
+   descriptor is null (full-dump / Memory64 layout: stack_memory falls back to memory_at_address(start_of_memory_range)). *)
 From RM Require Import C02.Model.
 From RM Require Import C14.Model.
 Open Scope Z_scope.
@@ -30,6 +32,18 @@ Definition misc_of (m : Z * list Z) : misc :=
 Definition module_of (m : mmodule) : Z * Z := (md_base m, md_size m).
 Definition unloaded_of (u : munloaded) : Z * Z * Z := (um_base u, um_size u, pack_units (um_name u)).
 Definition tname_of (n : Z * list Z) : Z * option Z := (fst n, Some (pack_units (snd n))).
+Definition region_of (r : mregion) : Z * Z := (mr_base r, zlen (mr_bytes r)).
+(* Minidump::get_memory: the Memory64List when it reads, else the MemoryList, else nothing (unwrap_or_default) *)
+Definition unified_view (v : dview) : list mregion :=
+  match v_memory64 v with
+  | SOk l => l
+  | _ => match v_memory v with SOk l => l | _ => [] end
+  end.
+Definition unified_model (m : model) : list mregion :=
+  match m_memory64 m with
+  | Some l => l
+  | None => match m_memory m with Some l => l | None => [] end
+  end.
 
 Section Reader.
 (* the CPU context reader: byte order, raw processor_architecture, the bytes of the context -> (ip, sp).
@@ -49,7 +63,7 @@ Definition exception_of (e : endian) (arch : Z) (x : mexception) : exception :=
 Definition dump_of_streams (e : endian) (time : Z)
     (sys : option msysinfo) (threads : option (list mthread)) (tnames : list (Z * list Z))
     (exc : option mexception) (bp : option (list Z)) (mi : option (Z * list Z)) (status : option (list Z))
-    (mods : list mmodule) (unl : list munloaded) : option dump :=
+    (mods : list mmodule) (unl : list munloaded) (mems : list mregion) : option dump :=
   match threads, sys with
   | Some ts, Some s =>
       let arch := si_arch s in
@@ -62,7 +76,7 @@ Definition dump_of_streams (e : endian) (time : Z)
               d_status := status;
               d_modules := map module_of mods;
               d_unloaded := map unloaded_of unl;
-              d_mems := [] |}
+              d_mems := map region_of mems |}
   | _, _ => None
   end.
 
@@ -70,12 +84,12 @@ Definition dump_of_streams (e : endian) (time : Z)
 Definition dump_of_view (v : dview) : option dump :=
   dump_of_streams (v_endian v) (v_time v) (sres_opt (v_sysinfo v)) (sres_opt (v_threads v)) (sres_list (v_tnames v))
     (sres_opt (v_exception v)) (sres_opt (v_breakpad v)) (sres_opt (v_misc v)) (sres_opt (v_lx_status v))
-    (sres_list (v_modules v)) (sres_list (v_unloaded v)).
+    (sres_list (v_modules v)) (sres_list (v_unloaded v)) (unified_view v).
 (* the same, directly from a dump model of C02 (what a writer meant to encode) *)
 Definition dump_of_model (e : endian) (m : model) : option dump :=
   dump_of_streams e (m_time m) (m_sysinfo m) (m_threads m) (opt_list (m_tnames m))
     (m_exception m) (m_breakpad m) (m_misc m) (m_lx_status m)
-    (opt_list (m_modules m)) (opt_list (m_unloaded m)).
+    (opt_list (m_modules m)) (opt_list (m_unloaded m)) (unified_model m).
 
 (* Minidump::read, MinidumpInfo::new *)
 Definition dump_of_bytes (bs : list Z) : option dump :=
